@@ -146,10 +146,14 @@ def closure_cases(run, sc, n):
             run.disagree(case, mo, exp_model)
 
 
+LOOKUP_CALLS = [0]
+
+
 def lookup_cases(run, sc, n):
     rng = run.rng
     # half of the graphs define one or two nodes twice (overlapping exports): ids and row positions then differ
-    g, _ = W.gen_closed(rng, hostile=False, n_ns=2, n_nodes=8, features={"repeat_nodes": rng.random() < 0.5})
+    LOOKUP_CALLS[0] += 1
+    g, _ = W.gen_closed(rng, hostile=False, n_ns=2, n_nodes=8, features={"repeat_nodes": LOOKUP_CALLS[0] % 2 == 1})
     # duplicated browse names: within one node class and across classes / namespaces
     keys = list(g["nodes"])
     for _ in range(4):
